@@ -624,3 +624,21 @@ func ThresholdSym(v uint32) int {
 	}
 	return int(v)
 }
+
+// Body-size limits: 3000000+k stands for 2^32+k (a limit no body reaches; truncated to 32 bits it would be k).
+func SizeVal(a int) uint64 {
+	if a >= 3_000_000 {
+		return 1<<32 + uint64(a-3_000_000)
+	}
+	return uint64(a)
+}
+
+func SizeSym(v uint64) int {
+	if v >= 1<<32 && v < 1<<32+100000 {
+		return 3_000_000 + int(v-1<<32)
+	}
+	if v > 1<<30 {
+		return -777
+	}
+	return int(v)
+}
